@@ -11,6 +11,7 @@ COMMON_TRUSTED = [
 
 # (file under coq/Gen, acra-vh arguments that print it): regenerated from /repo on every run
 GENERATORS = [
+    ("SqlWords.v", ["sqlwords"]),
     ("SqlKeywords.v", ["sqlkeywords"]),
     ("X18Consts.v", ["x18consts"]),
     ("WireMysqlConsts.v", ["wiremyconsts"]),
@@ -182,6 +183,10 @@ PROPS = {
         ]
     },
     "C13": {
+        "properties": [
+            "C13",
+            "C13_statements"
+        ],
         "domains": [
             {
                 "name": "c13",
@@ -189,19 +194,32 @@ PROPS = {
                 "n_quick": 250,
                 "n_thorough": 4000,
                 "model": True
+            },
+            {
+                "name": "c13s",
+                "run_vo": "Model/RunSqlStmt.vo",
+                "n_quick": 100,
+                "n_thorough": 2500,
+                "model": True
             }
         ],
         "level": "proof",
-        "notes": ["proof on the expression fragment (partial); differential oracle on the whole grammar"],
+        "notes": [
+            "proof on the expression fragment (C13, partial) and on whole SELECT/UNION/INSERT/UPDATE/DELETE statements incl. sub-selects, joins, CASE/CONVERT/INTERVAL/COLLATE/function calls, quoted identifiers (C13_statements, partial in scope, token level); differential oracle on the whole grammar"
+        ],
         "trusted": [
             "Gen/Prec.v regenerated on every run from sqlparser/sql.y (%left/%right/%nonassoc table, %prec of the prefix rules), the compiled operator strings/ValType enum of sqlparser and sqltypes.SQLEncodeMap/SQLDecodeMap",
             "modelled, not verified: the tokenizer outside string literals (identifier quoting, numbers, comments, keywords); the model's printer emits TOKENS and is tied to Format+Tokenizer by replay (OPrint), the model's parser to sql.go (goyacc output) by replay (OParse)",
             "outside the model (differential oracle Parse(String(t)) = t only): DDL, table expressions/joins, sub-selects, UNION, CASE, CAST/CONVERT, INTERVAL, COLLATE, JSON operators, casts (::type), qualified/DISTINCT function calls, aliases, ORDER/GROUP/LIMIT, INSERT/UPDATE/DELETE clause level",
-            "sql.go is the goyacc output committed in /repo; it is what runs. A change of sql.y alone changes Gen/Prec.v (proofs then fail) but not the running parser"
+            "sql.go is the goyacc output committed in /repo; it is what runs. A change of sql.y alone changes Gen/Prec.v (proofs then fail) but not the running parser",
+            "C13_statements: Gen/SqlWords.v regenerated on every run (`acra-vh sqlwords`, hook sqlparser.VerifKeywords): the tokenizer's keyword table (= the table formatID consults), the keyword tokens of the model's grammar with their compiled spelling, non_reserved_keyword / function_call_nonkeyword / interval_units of sql.y, the convert_type and keyword-function alternatives (checked against sql.y, generation fails when they disappear), clause strings and the LimitType enum of ast.go",
+            "C13_statements, modelled not verified: (1) the statement parser of the model is a recursive-descent parser for the PRINTED language (aliases with AS, one spelling per operator); it is tied to the LALR parser sql.go by replay on every printed tree incl. trees the grammar cannot build (SRound: parse result, syntax error, wf verdict), not on arbitrary input text; (2) the theorems are about tokens: the byte-exact text printer (stext) and the tokenizer model (lex) are replayed against String() / Tokenizer on every case and on token soup (SLex); toks(pp t) = print t is proved, lex(stext t) = print t is NOT (C13_escape_roundtrip covers string literals); (3) identifiers with bytes >= 0x80 are treated as must-quote (Go iterates runes and truncates them to 16 bits); (4) the reflect/type-switch export of real trees to model terms (c13s_export.go)",
+            "C13_statements, outside the model (counted as outside:* in the evidence; differential oracle of the c13 domain only): comments, SQL_CACHE/STRAIGHT_JOIN hints, PARTITION clauses, index hints, NEXT VALUE, SUBSTR, MATCH, GROUP_CONCAT, JSON operators, DEFAULT(col), charsets in CONVERT types, casts of non-literals, list arguments, sub-selects whose text starts with '(' , qualified keyword-named functions, single-quoted names outside aliases, MySQL ANSI mode, DDL/SET/SHOW/PREPARE"
         ],
         "assumptions": [
             "wf e (= the tree is one the yacc parser can build) as the premise of the round-trip theorems; subst_ok (replacement literal well-formed, no non-integer -> integer change) for substitution",
-            "escape round trip: text after the literal does not start with a quote (a doubled quote continues the literal)"
+            "escape round trip: text after the literal does not start with a quote (a doubled quote continues the literal)",
+            "C13_statements: wf_stmt pg t (= the tree is one sql.y can build in that dialect: precedence respected or explicit ParenExpr, join shapes, no ORDER/LIMIT on a union member, identifiers printable in their position, literal spellings) as the premise of the round trip; lit_adm (replacement literal well-formed, integer/string only where one stood, not negative directly under COLLATE) for substitution; both premises are evaluated on every replayed tree (wf must be True exactly when Go round-trips it)"
         ]
     },
     "C16": {
